@@ -26,13 +26,14 @@ RULE = ("seeded stateful histories interleaving: create Parameters (with/without
         "values (valid / out of bounds / out of component range / non-numeric), change bounds (accepted / rejected), "
         "copy, freeze, read U; distinct = sequence of step kinds; non-trivial = >=1 rejected update and >=1 read after "
         "an update")
-MANDATORY = ["frozen_read_after_update", "invalid_component_value_on_read", "read_after_update_in_group",
+MANDATORY = ["non_finite_phase_offered", "frozen_read_after_update", "invalid_component_value_on_read", "read_after_update_in_group",
              "rejected_set", "rejected_bound", "parameterdict_set", "shared_parameter", "nested_group_parameter",
              "invalid_reflectivity_on_read", "invalid_loss_on_read"]
 DECIDING = ["mon.param_invariant_checks", "mon.param_reject_checks", "get_all_params_postconditions", "mon.cmp"]
 BUDGET = {"quick": 25, "thorough": 420}
 ASSUMPTIONS = ["a value is 'invalid for its component' when a reflectivity or loss resolves outside [0,1] or a "
-               "phase/reflectivity/loss resolves to a non-number"]
+               "phase/reflectivity/loss resolves to a non-number, or a phase to nan / +-inf (exp(i phi) is then no phase factor and "
+               "U_full not unitary)"]
 
 
 def isnum(x):
@@ -339,6 +340,9 @@ def run(ctx):
                             v = pick_unit(rng)
                     else:   # a value its component cannot take
                         v = float(rng.choice([1.5, -0.2, 1 + 1e-9, -5e-9, -1e-12])) if role != "phi" else "abc"
+                        if role == "phi" and not p.has_bounds() and rng.random() < 0.5:
+                            v = float(rng.choice([float("nan"), float("inf"), float("-inf")]))     # no phase at all
+                            ctx.bucket("non_finite_phase_offered")
                     via_dict = False
                     for kk in pdict.keys():
                         if pdict[kk] is p and rng.random() < 0.5:
